@@ -19,12 +19,14 @@
  *   TABLEAU                         basis order, every row of B^-1, every tableau row
  *   PIVROW <k> <r>*k | PIVCOL <k> <c>*k    mpq_QSopt_pivotin_row / _col
  *  component level (mpq_ILLfactor*):
- *   FNEW <n> [<param> <val>]*       fresh factor_work of dimension n (iparams: 1 MAX_K, 2 P, 3 ETAMAX, 17 DENSE_MIN)
+ *   FNEW <n> [<param> <val>]*       fresh factor_work of dimension n (iparams: 1 MAX_K, 2 P, 3 ETAMAX, 17 DENSE_MIN;
+ *                                   d<code> <rational> = dparam, e.g. d11 ER_SPACE_MUL, d8 UC_SPACE_MUL, d16 DENSE_FRACT)
  *   FCOL <k> <cnt> (<row> <val>)*   set column k of the matrix (sparse)
  *   FACTOR                          mpq_ILLfactor on the current columns
  *   FTRAN <cnt> (<idx> <val>)*      -> FTRAN x_0 .. x_{n-1}
  *   BTRAN <cnt> (<idx> <val>)*      -> BTRAN y_0 .. y_{n-1}
- *   FUPD <col> <cnt> (<row> <val>)* ftran_update with the new column, then ILLfactor_update replacing basis position col
+ *   FUPD <col> <cnt> (<row> <val>)* ftran_update with the new column, then ILLfactor_update replacing basis position col;
+ *                                   on failure / refactor request: fresh factorization (REFACTOR), undone if singular (REVERT)
  *   FDUMP                           representation dump of the factor_work
  *   FFREE
  */
@@ -105,6 +107,7 @@ static int FN = 0;
 static int *Fbasis = NULL, *Fcbeg = NULL, *Fclen = NULL, *Fcind = NULL;
 static mpq_t *Fcoef = NULL;
 static int Fcap = 0;		/* per column capacity = FN */
+static int Fvalid = 0;		/* the last factorization succeeded and was non-singular */
 
 static void f_free (void)
 {
@@ -126,6 +129,7 @@ static void f_new (int n)
 {
 	int i;
 	f_free ();
+	Fvalid = 0;
 	FN = n; Fcap = n > 0 ? n : 1;
 	F = (mpq_factor_work *) calloc (1, sizeof (mpq_factor_work));
 	mpq_EGlpNumInitVar (F->fzero_tol); mpq_EGlpNumInitVar (F->szero_tol); mpq_EGlpNumInitVar (F->partial_tol);
@@ -154,6 +158,23 @@ static void parse_svec (int t, mpq_svector * v, int n)
 		qsx_parse_q (qsx_tok[t + 2 + 2 * i], v->coef[i]);
 	}
 	v->nzcnt = k;
+}
+
+/* (re)factor the current columns; prints " <rv> <nsing> (<singr> <singc>)*"; returns non-zero when rv != 0 or nsing > 0 */
+static int f_factor (void)
+{
+	int rv, nsing = 0, *singr = 0, *singc = 0, i;
+	Fvalid = 0;
+	if (F->rperm) mpq_ILLfactor_free_factor_work (F);
+	rv = mpq_ILLfactor_create_factor_work (F, FN);
+	if (rv) { printf (" %d create", rv); return 1; }
+	rv = mpq_ILLfactor (F, Fbasis, Fcbeg, Fclen, Fcind, Fcoef, &nsing, &singr, &singc);
+	printf (" %d %d", rv, nsing);
+	for (i = 0; i < nsing; i++) printf (" %d %d", singr[i], singc[i]);
+	if (singr) mpq_QSfree (singr);
+	if (singc) mpq_QSfree (singc);
+	Fvalid = (rv == 0 && nsing == 0);
+	return rv != 0 || nsing > 0;
 }
 
 static void print_dense (const char *tag, mpq_svector * x, int n)
@@ -252,7 +273,18 @@ int main (int argc, char **argv)
 			int i, rv = 0;
 			f_new (atoi (qsx_tok[1]));
 			for (i = 2; i + 1 < qsx_ntok; i += 2)
-				rv |= mpq_ILLfactor_set_factor_iparam (F, atoi (qsx_tok[i]), atoi (qsx_tok[i + 1]));
+			{
+				if (qsx_tok[i][0] == 'd')
+				{
+					mpq_t v;
+					mpq_init (v);
+					qsx_parse_q (qsx_tok[i + 1], v);
+					rv |= mpq_ILLfactor_set_factor_dparam (F, atoi (qsx_tok[i] + 1), v);
+					mpq_clear (v);
+				}
+				else
+					rv |= mpq_ILLfactor_set_factor_iparam (F, atoi (qsx_tok[i]), atoi (qsx_tok[i + 1]));
+			}
 			printf ("FNEW %d %d\n", FN, rv);
 		}
 		else if (!strcmp (op, "FCOL"))
@@ -268,26 +300,16 @@ int main (int argc, char **argv)
 		}
 		else if (!strcmp (op, "FACTOR"))
 		{
-			int rv, nsing = 0, *singr = 0, *singc = 0, i;
 			if (!F) qsx_die ("FACTOR without FNEW");
-			/* as ILLbasis_factor: a used work area is freed and re-created */
-			if (F->rperm) mpq_ILLfactor_free_factor_work (F);
-			rv = mpq_ILLfactor_create_factor_work (F, FN);
-			if (rv) { printf ("FACTOR %d create\n", rv); }
-			else
-			{
-				rv = mpq_ILLfactor (F, Fbasis, Fcbeg, Fclen, Fcind, Fcoef, &nsing, &singr, &singc);
-				printf ("FACTOR %d %d", rv, nsing);
-				for (i = 0; i < nsing; i++) printf (" %d %d", singr[i], singc[i]);
-				putchar ('\n');
-				if (singr) mpq_QSfree (singr);
-				if (singc) mpq_QSfree (singc);
-			}
+			fputs ("FACTOR", stdout);
+			f_factor ();
+			putchar ('\n');
 		}
 		else if (!strcmp (op, "FTRAN") || !strcmp (op, "BTRAN"))
 		{
 			mpq_svector a, x;
 			if (!F) qsx_die ("solve without factor");
+			if (!Fvalid) { printf ("%s NOFACTOR\n", op); fflush (stdout); continue; }
 			parse_svec (1, &a, FN);
 			mpq_ILLsvector_init (&x);
 			mpq_ILLsvector_alloc (&x, FN > 0 ? FN : 1);
@@ -299,22 +321,41 @@ int main (int argc, char **argv)
 		else if (!strcmp (op, "FUPD"))
 		{
 			mpq_svector a, upd, x;
-			int col = atoi (qsx_tok[1]), refactor = 0, rv, i;
+			int col = atoi (qsx_tok[1]), refactor = 0, rv, i, oldlen, *oldind;
+			mpq_t *oldcoef;
 			if (!F || col < 0 || col >= FN) qsx_die ("FUPD");
+			if (!Fvalid) { printf ("FUPDX NOFACTOR\nFUPD NOFACTOR\n"); fflush (stdout); continue; }
 			parse_svec (2, &a, FN);
 			mpq_ILLsvector_init (&x); mpq_ILLsvector_alloc (&x, FN);
 			mpq_ILLsvector_init (&upd); mpq_ILLsvector_alloc (&upd, FN);
+			/* remember the column that is replaced */
+			oldlen = Fclen[col];
+			oldind = (int *) calloc (FN + 1, sizeof (int));
+			oldcoef = mpq_EGlpNumAllocArray (FN + 1);
+			for (i = 0; i < oldlen; i++) { oldind[i] = Fcind[Fcbeg[col] + i]; mpq_set (oldcoef[i], Fcoef[Fcbeg[col] + i]); }
+			for (i = 0; i < a.nzcnt; i++) { Fcind[Fcbeg[col] + i] = a.indx[i]; mpq_set (Fcoef[Fcbeg[col] + i], a.coef[i]); }
+			Fclen[col] = a.nzcnt;
 			mpq_ILLfactor_ftran_update (F, &a, &upd, &x);
 			print_dense ("FUPDX", &x, FN);
 			rv = mpq_ILLfactor_update (F, &upd, col, &refactor);
-			printf ("FUPD %d %d\n", rv, refactor);
-			/* the matrix now has the new column at position col */
-			for (i = 0; i < a.nzcnt; i++)
+			printf ("FUPD %d %d", rv, refactor);
+			if (rv || refactor)
 			{
-				Fcind[Fcbeg[col] + i] = a.indx[i];
-				mpq_set (Fcoef[Fcbeg[col] + i], a.coef[i]);
+				/* as ILLbasis_update: any failure or request means a fresh factorization of the new matrix */
+				int sing;
+				fputs (" REFACTOR", stdout);
+				sing = f_factor ();
+				if (sing)
+				{
+					/* singular (or failed): undo the replacement so that the script can go on */
+					for (i = 0; i < oldlen; i++) { Fcind[Fcbeg[col] + i] = oldind[i]; mpq_set (Fcoef[Fcbeg[col] + i], oldcoef[i]); }
+					Fclen[col] = oldlen;
+					fputs (" REVERT", stdout);
+					f_factor ();
+				}
 			}
-			Fclen[col] = a.nzcnt;
+			putchar ('\n');
+			free (oldind); mpq_EGlpNumFreeArray (oldcoef);
 			mpq_ILLsvector_free (&a); mpq_ILLsvector_free (&x); mpq_ILLsvector_free (&upd);
 		}
 		else if (!strcmp (op, "FDUMP"))
